@@ -38,7 +38,9 @@ func (d *dependencyFurtherMatchingPostProcessors) PostProcessProperties(properti
 				if prop.IsRequired() {
 					return nil, errors.WithMessagef(err, "field '%s' is required but not found any components", prop.String())
 				}
-				return nil, nil
+				//an optional point without candidates stays empty; the other fields are still processed
+				prop.Injects = nil
+				continue
 			}
 			return nil, err
 		}
